@@ -20,17 +20,63 @@
 //!   `bf<d>` = `.fixed_backoff(d)`, `be<d>` = `.exponential_backoff(d)`, `bt<d>/<d>/…` = `.backoff(table)`;
 //!   `p<mask>` = `.retry_on(mask)`; `ubucket:…` / `uaimd:…` = `.budget(a new budget)`; anything else is skipped;
 //!   `chain=-` = no setter at all (the builder's defaults). Probes and manual deposits go to the budget given LAST.
+//!   `n<name>` = `.name(name)`; with `via=exponential_backoff|aggressive|conservative` the chain starts from that preset
+//!   of `RetryLayer` instead of `builder()`.
+//!
+//! Interval-function objects handed to `.backoff(..)` (`bo=` kinds / chain items), every public constructor:
+//!   `ifixed:<d>` / `bi<d>`                          `FixedInterval::new(d)`
+//!   `iexp:<d>_<p>_<q>_<cap>` / `bx…`                `ExponentialBackoff::new(d).multiplier(p/q).max_interval(cap)`
+//!   `rand:<d>_<pct>_<p>_<q>_<cap>` / `br…`          `ExponentialRandomBackoff::new(d, pct/100).multiplier(p/q).max_interval(cap)`
+//!   (`fn:` / `bt` is `FnInterval::new`); a field `-` or absent = that setter is not called. These objects are wrapped
+//!   (`Observed`): every answer of `next_interval(k)` is handed to the model as the observed choice `@d=<ns>` on the poll
+//!   in progress (jitter is random, the exponential is float-computed) and logged as the meta line `#bo <k> <ns>`.
+//!
+//! Budgets: `bucket:<max>:<initial>[:<tokens per second>]` and `aimdb:<min>:<max>:<deposit>:<withdraw>:<q>` are built
+//!   through `RetryBudgetBuilder::new().token_bucket()…build()` / `.aimd()…build()` (a field `-` = setter not called: the
+//!   builder's default); `aimd:…` is `AimdBudget::new` (the only way to a handle with `current_max()`).
+//!
+//! `ready=<script>`: the inner service is `Inner::strict(script)`: its answers to the readiness polls the retry loop makes
+//!   BETWEEN attempts ('r' ready, 'p' pending + self-wake, 'e' error; exhausted: ready). The caller's own readiness check
+//!   at arrival always finds the service ready (an 'r' is put in front of the script for it).
+//! `rec=<ms>`: every service instance answers `Pending` (no script answer consumed, a timer armed) until that long after
+//!   the call it last served (`Inner::strict_rec`): the request's own instance is still recovering when a short back-off ends.
+//!
+//! `arrive … svc=<k> lclone=1 h=same|clone`: service k is built lazily by `layer.layer(inner)` from the ONE layer value
+//!   (`lclone=1`: from a clone of the layer taken at that moment); default: the call is made on a fresh clone of service
+//!   k; `h=same`: on the handle kept for service k (the one used by the previous `h=` arrival: `h.call(); h.call()`);
+//!   `h=clone`: on a clone of that handle taken now (after whatever calls it made), which becomes the kept handle.
 use crate::world::*;
 use std::sync::Arc;
 use std::time::Duration;
 use tower::{Layer, Service};
-use tower_resilience_retry::{AimdBudget, FnInterval, Retry, RetryBudget, RetryBudgetBuilder, RetryLayer};
+use tower_resilience_retry::{
+    AimdBudget, ExponentialBackoff, ExponentialRandomBackoff, FixedInterval, FnInterval, IntervalFunction, Retry,
+    RetryBudget, RetryBudgetBuilder, RetryLayer,
+};
 
 pub struct Adapter {
-    svc: Retry<Inner, Req, IErr>,
+    layer: RetryLayer<Req, IErr>,
+    base: Inner,
+    strict: bool,
+    /// service k, built lazily from the one layer value
+    svcs: std::collections::BTreeMap<u64, Retry<Inner, Req, IErr>>,
+    /// the handle kept for service k (`h=same|clone`)
+    handles: std::collections::BTreeMap<u64, Retry<Inner, Req, IErr>>,
     budget: Option<Arc<dyn RetryBudget>>,
     aimd: Option<Arc<AimdBudget>>,
     dflt_max: u64,
+}
+
+/// an interval-function object whose answers are observed: handed to the model as `@d=<ns>` on the operation in
+/// progress, and logged as the meta line `#bo <retry index> <ns>`
+struct Observed<I>(I);
+impl<I: IntervalFunction> IntervalFunction for Observed<I> {
+    fn next_interval(&self, attempt: usize) -> Duration {
+        let d = self.0.next_interval(attempt);
+        obs("d", d.as_nanos());
+        log_raw(format!("#bo {} {}", attempt, d.as_nanos()));
+        d
+    }
 }
 
 fn nums(s: &str, sep: char) -> Vec<u64> {
@@ -52,18 +98,52 @@ fn dur(s: &str, us: bool) -> Duration {
 
 type Budgets = (Option<Arc<dyn RetryBudget>>, Option<Arc<AimdBudget>>);
 
-/// `bucket:<max>:<initial>` / `aimd:<min>:<max>:<deposit>:<withdraw>:<q>`; anything else: no budget
+/// `bucket:<max>:<initial>[:<tps>]` / `aimd:<min>:<max>:<deposit>:<withdraw>:<q>` / `aimdb:…` (through the budget
+/// builder); anything else: no budget. A field `-` = the builder's setter is not called.
 fn mk_budget(bu: &str) -> Budgets {
     let (kind, arg) = bu.split_once(':').unwrap_or((bu, ""));
     let p = nums(arg, ':');
     let g = |i: usize, d: u64| p.get(i).cloned().unwrap_or(d);
+    let raw: Vec<&str> = arg.split(':').collect();
+    // Some(n): call the setter with n; None: leave the builder's default
+    let field = |i: usize, absent: Option<u64>| -> Option<u64> {
+        match raw.get(i) {
+            Some(&"-") => None,
+            Some(x) if !x.is_empty() => Some(x.parse().unwrap_or(0)),
+            _ => absent,
+        }
+    };
     if kind == "bucket" {
-        let b = RetryBudgetBuilder::new()
-            .token_bucket()
-            .max_tokens(g(0, 1) as usize)
-            .initial_tokens(g(1, g(0, 1)) as usize)
-            .build();
-        (Some(b), None)
+        let mut b = RetryBudgetBuilder::new().token_bucket();
+        if let Some(t) = field(2, None) {
+            b = b.tokens_per_second(t as f64);
+        }
+        let max = field(0, Some(1));
+        if let Some(m) = max {
+            b = b.max_tokens(m as usize);
+        }
+        if let Some(i) = field(1, None) {
+            b = b.initial_tokens(i as usize);
+        }
+        (Some(b.build()), None)
+    } else if kind == "aimdb" {
+        let mut b = RetryBudgetBuilder::new().aimd();
+        if let Some(x) = field(0, None) {
+            b = b.min_budget(x as usize);
+        }
+        if let Some(x) = field(1, None) {
+            b = b.max_budget(x as usize);
+        }
+        if let Some(x) = field(2, None) {
+            b = b.deposit_amount(x as usize);
+        }
+        if let Some(x) = field(3, None) {
+            b = b.withdraw_amount(x as usize);
+        }
+        if let Some(x) = field(4, None) {
+            b = b.decrease_factor(x as f64 / 4.0);
+        }
+        (Some(b.build()), None)
     } else if kind == "aimd" {
         let a = Arc::new(AimdBudget::new(
             g(0, 1) as usize,
@@ -80,11 +160,51 @@ fn mk_budget(bu: &str) -> Budgets {
 
 type B = tower_resilience_retry::RetryConfigBuilder<Req, IErr>;
 
-/// one of the three back-off setters: `fixed` / `exp` / anything else = a custom table (`sep` between its values)
+/// a field of `<d>_<pct>_<p>_<q>_<cap>`: `-` / empty / absent = the setter is not called
+fn fld<'a>(fs: &[&'a str], i: usize) -> Option<&'a str> {
+    match fs.get(i) {
+        Some(&"-") | Some(&"") | None => None,
+        Some(x) => Some(x),
+    }
+}
+
+/// one of the back-off setters: `fixed` / `exp` (the builder's shortcuts), `ifixed` / `iexp` / `rand` (an interval-function
+/// object built through its own constructor and setters, observed), anything else = a custom table (`FnInterval`; `sep`
+/// between its values)
 fn set_backoff(b: B, kind: &str, arg: &str, sep: char, us: bool) -> B {
     match kind {
         "fixed" => b.fixed_backoff(dur(arg, us)),
         "exp" => b.exponential_backoff(dur(arg, us)),
+        "ifixed" => b.backoff(Observed(FixedInterval::new(dur(arg, us)))),
+        "iexp" | "rand" => {
+            let fs: Vec<&str> = arg.split('_').collect();
+            let o = if kind == "rand" { 1 } else { 0 };
+            let d = dur(fs.first().cloned().unwrap_or("0"), us);
+            let mult = fld(&fs, 1 + o).map(|p| {
+                p.parse::<u64>().unwrap_or(0) as f64 / fld(&fs, 2 + o).and_then(|q| q.parse::<u64>().ok()).unwrap_or(1) as f64
+            });
+            let cap = fld(&fs, 3 + o).map(|c| dur(c, us));
+            if kind == "rand" {
+                let pct = fld(&fs, 1).and_then(|x| x.parse::<u64>().ok()).unwrap_or(50);
+                let mut i = ExponentialRandomBackoff::new(d, pct as f64 / 100.0);
+                if let Some(m) = mult {
+                    i = i.multiplier(m);
+                }
+                if let Some(c) = cap {
+                    i = i.max_interval(c);
+                }
+                b.backoff(Observed(i))
+            } else {
+                let mut i = ExponentialBackoff::new(d);
+                if let Some(m) = mult {
+                    i = i.multiplier(m);
+                }
+                if let Some(c) = cap {
+                    i = i.max_interval(c);
+                }
+                b.backoff(Observed(i))
+            }
+        }
         _ => {
             let table: Vec<Duration> = arg.split(sep).filter(|x| !x.is_empty()).map(|x| dur(x, us)).collect();
             b.backoff(FnInterval::new(move |attempt: usize| table.get(attempt).cloned().unwrap_or(Duration::ZERO)))
@@ -105,8 +225,13 @@ fn all_digits(s: &str) -> Option<u64> {
 
 /// `chain=<s1,s2,…>`: the setters applied left to right to `RetryLayer::builder()` through the public API.
 /// The budget handle kept for probes / manual operations is the one handed to the LAST `budget(..)` call.
-fn build_chain(chain: &str, us: bool) -> (B, Budgets) {
-    let mut b = RetryLayer::<Req, IErr>::builder();
+fn build_chain(chain: &str, us: bool, via: &str) -> (B, Budgets) {
+    let mut b = match via {
+        "exponential_backoff" => RetryLayer::<Req, IErr>::exponential_backoff(),
+        "aggressive" => RetryLayer::<Req, IErr>::aggressive(),
+        "conservative" => RetryLayer::<Req, IErr>::conservative(),
+        _ => RetryLayer::<Req, IErr>::builder(),
+    };
     let mut budgets: Budgets = (None, None);
     for item in chain.split(',') {
         if !item.is_ascii() || item.is_empty() {
@@ -123,6 +248,10 @@ fn build_chain(chain: &str, us: bool) -> (B, Budgets) {
             (_, _, "bf") => b = set_backoff(b, "fixed", a2, '/', us),
             (_, _, "be") => b = set_backoff(b, "exp", a2, '/', us),
             (_, _, "bt") => b = set_backoff(b, "fn", a2, '/', us),
+            (_, _, "bi") => b = set_backoff(b, "ifixed", a2, '/', us),
+            (_, _, "bx") => b = set_backoff(b, "iexp", a2, '/', us),
+            (_, _, "br") => b = set_backoff(b, "rand", a2, '/', us),
+            ("n", _, _) => b = b.name(a1),
             ("u", _, _) => {
                 let made = mk_budget(a1);
                 if let Some(bu) = made.0.clone() {
@@ -139,10 +268,23 @@ fn build_chain(chain: &str, us: bool) -> (B, Budgets) {
 impl Adapter {
     pub fn new(kv: &Kv) -> Adapter {
         let us = kv.get("unit") == Some("us");
+        let (strict, base) = match (kv.get("ready"), kv.u64("rec", 0)) {
+            (None, 0) => (false, Inner::new()),
+            (script, rec) => (true, Inner::strict_rec(script.unwrap_or(""), rec, false)),
+        };
+        let mk = |layer: RetryLayer<Req, IErr>, (budget, aimd): Budgets, dflt_max: u64| Adapter {
+            layer,
+            base,
+            strict,
+            svcs: Default::default(),
+            handles: Default::default(),
+            budget,
+            aimd,
+            dflt_max,
+        };
         if let Some(chain) = kv.get("chain") {
-            let (b, (budget, aimd)) = build_chain(chain, us);
-            let layer = b.build();
-            return Adapter { svc: layer.layer(Inner::new()), budget, aimd, dflt_max: NO_MA };
+            let (b, budgets) = build_chain(chain, us, kv.get("via").unwrap_or(""));
+            return mk(b.build(), budgets, NO_MA);
         }
         let mut b = RetryLayer::<Req, IErr>::builder();
         let dflt_max = kv.u64("max", 3);
@@ -158,12 +300,23 @@ impl Adapter {
             let (kind, arg) = bo.split_once(':').unwrap_or((bo, "0"));
             b = set_backoff(b, kind, arg, ',', us);
         }
+        if let Some(name) = kv.get("name") {
+            b = b.name(name);
+        }
         let (budget, aimd) = kv.get("budget").map(mk_budget).unwrap_or((None, None));
         if let Some(bu) = budget.clone() {
             b = b.budget(bu);
         }
-        let layer = b.build();
-        Adapter { svc: layer.layer(Inner::new()), budget, aimd, dflt_max }
+        mk(b.build(), (budget, aimd), dflt_max)
+    }
+
+    /// service k of the one layer value (built at first use; `lclone`: through a clone of the layer taken now)
+    fn service(&mut self, k: u64, lclone: bool) -> &mut Retry<Inner, Req, IErr> {
+        if !self.svcs.contains_key(&k) {
+            let svc = if lclone { self.layer.clone().layer(self.base.clone()) } else { self.layer.layer(self.base.clone()) };
+            self.svcs.insert(k, svc);
+        }
+        self.svcs.get_mut(&k).unwrap()
     }
 }
 
@@ -176,18 +329,42 @@ pub fn render(r: Result<Resp, IErr>) -> String {
 
 impl Mw for Adapter {
     fn arrive(&mut self, c: usize, kv: &Kv) -> Option<CallFut> {
-        let mut svc = self.svc.clone();
+        let k = kv.u64("svc", 0);
+        let lclone = kv.u64("lclone", 0) == 1;
         let mut req = Req::new(c, kv);
         req.key = kv.u64("ma", self.dflt_max); // per-request max_attempts travels in the request
-        match poll_ready_once(&mut svc) {
-            std::task::Poll::Ready(Ok(())) => {}
-            _ => {
+        // which handle the caller uses: a fresh clone of service k (default), the handle kept for service k, or a
+        // clone of that handle taken now
+        let mut svc = match kv.get("h") {
+            Some(how) => {
+                let kept = match self.handles.remove(&k) {
+                    Some(h) => h,
+                    None => self.service(k, lclone).clone(),
+                };
+                if how == "clone" {
+                    kept.clone()
+                } else {
+                    kept
+                }
+            }
+            None => self.service(k, lclone).clone(),
+        };
+        if self.strict {
+            // the script is about the readiness polls between attempts: the caller's own check finds the service ready
+            self.base.shared.lock().unwrap().ready_script.push_front('r');
+        }
+        let ready = matches!(poll_ready_once(&mut svc), std::task::Poll::Ready(Ok(())));
+        let fut = if ready { Some(svc.call(req)) } else { None };
+        if kv.get("h").is_some() {
+            self.handles.insert(k, svc);
+        }
+        match fut {
+            Some(f) => Some(held(f, render)),
+            None => {
                 log(format!("result {} notready", c));
-                return None;
+                None
             }
         }
-        let fut = svc.call(req);
-        Some(held(fut, render))
     }
 
     fn probe(&mut self, what: &str, _kv: &Kv) {
